@@ -98,6 +98,12 @@ impl H {
         out.ev(json!({"op": "reset", "M": m.min(i32::MAX as usize), "ttl": ttl_ms.min(i32::MAX as u64)}));
         H { h: BlockHandler::new(BlockHandlerConfig { max_total_message_size: m, cache_expiry_duration: Duration::from_millis(ttl_ms) }), start, m, ttl_ms }
     }
+    /// an expiry that is not a whole number of milliseconds: the trace carries a lower and an upper bound
+    pub fn new_us(out: &mut Out, m: usize, ttl_us: u64, start: Instant) -> H {
+        let (lo, hi) = (ttl_us / 1000, (ttl_us + 999) / 1000);
+        out.ev(json!({"op": "reset", "M": m.min(i32::MAX as usize), "ttl": hi, "ttl_lo": lo}));
+        H { h: BlockHandler::new(BlockHandlerConfig { max_total_message_size: m, cache_expiry_duration: Duration::from_micros(ttl_us) }), start, m, ttl_ms: hi }
+    }
     fn now_floor(&self) -> u64 {
         self.start.elapsed().as_millis() as u64
     }
@@ -1079,6 +1085,22 @@ pub fn rec_expiry(args: &Args) {
         run_step(&mut h, &mut out, &json!({"op": "sleep", "ms": ttl * 4 + 5}), &tag);
         let u1 = mkreq(&ReqSpec { code: 3, typ: 0, mid: next_mid(), tok: vec![5], segs: &up, b1: Some((1, false, 0)), b2: None, pay: vec![7, 7], extra: vec![] });
         run_step(&mut h, &mut out, &json!({"op": "ireq", "ep": "sleeper", "req": jpkt(&u1), "app": {"some": true, "v": {"code": 0x44, "pay": [], "opts": []}}}), &json!({"kind": "expiry-follow"}));
+    }
+    // expiries that are not whole milliseconds, zero included: what is configured is what applies
+    for ttl_us in if thorough { vec![0u64, 1, 750, 999, 1500, 20_500] } else { vec![0u64, 750, 20_500] } {
+        let mut h = H::new_us(&mut out, 1152, ttl_us, start);
+        let tag = json!({"kind": "expiry-us", "ttl_us": ttl_us});
+        let body = body_bytes(100, 6);
+        let p0 = mkreq(&ReqSpec { code: 1, typ: 0, mid: next_mid(), tok: vec![1], segs: &seg, b1: None, b2: Some((0, false, 0)), pay: vec![], extra: vec![] });
+        run_step(&mut h, &mut out, &json!({"op": "ireq", "ep": "sleeper", "req": jpkt(&p0), "app": {"some": true, "v": {"code": 0x45, "pay": jbytes(&body), "opts": []}}}), &tag);
+        let u0 = mkreq(&ReqSpec { code: 3, typ: 0, mid: next_mid(), tok: vec![2], segs: &up, b1: Some((0, true, 0)), b2: None, pay: body_bytes(16, 9), extra: vec![] });
+        run_step(&mut h, &mut out, &json!({"op": "ireq", "ep": "sleeper", "req": jpkt(&u0), "app": {"some": false}}), &tag);
+        run_step(&mut h, &mut out, &json!({"op": "sleep", "ms": ttl_us / 250 + 30}), &tag);
+        let p1 = mkreq(&ReqSpec { code: 1, typ: 0, mid: next_mid(), tok: vec![4], segs: &seg, b1: None, b2: Some((1, false, 0)), pay: vec![], extra: vec![] });
+        run_step(&mut h, &mut out, &json!({"op": "ireq", "ep": "sleeper", "req": jpkt(&p1), "app": {"some": true, "v": {"code": 0x45, "pay": jbytes(&body_bytes(40, 8)), "opts": []}}}), &json!({"kind": "expiry-us-follow"}));
+        run_step(&mut h, &mut out, &json!({"op": "sleep", "ms": ttl_us / 250 + 30}), &tag);
+        let u1 = mkreq(&ReqSpec { code: 3, typ: 0, mid: next_mid(), tok: vec![5], segs: &up, b1: Some((1, false, 0)), b2: None, pay: vec![7, 7], extra: vec![] });
+        run_step(&mut h, &mut out, &json!({"op": "ireq", "ep": "sleeper", "req": jpkt(&u1), "app": {"some": true, "v": {"code": 0x44, "pay": [], "opts": []}}}), &json!({"kind": "expiry-us-follow"}));
     }
     // expiry under traffic: while the entry sits idle for five times its expiry, other keys keep
     // starting block-wise transfers at intervals shorter than the expiry; the idle entry must still expire
